@@ -196,7 +196,7 @@ class Lib:
         return self.run(req, strings)
 
 
-def independence(ck, prefix, config, jobs, orders=('given', 'reversed', 'last-argument-major')):
+def independence(ck, prefix, config, jobs, orders=('given', 'reversed', 'last-argument-major', 'each-twice')):
     """The same calls in different ORDERS and WITHOUT an error slot must give bit-identical values.
     jobs: list of (name, args...).  Reports <prefix>:<fn>:result-depends-on-call-order / :value-without-error-slot-differs."""
     base = Lib(config, shuffle=False)
@@ -211,6 +211,9 @@ def independence(ck, prefix, config, jobs, orders=('given', 'reversed', 'last-ar
         for o in orders[1:]:
             if o == 'reversed':
                 idx = np.arange(len(req))[::-1]
+            elif o == 'each-twice':   # a random order in which every call is immediately repeated: a, a, b, b, ... (one-entry memos keyed on the arguments)
+                from .common import seed
+                idx = np.repeat(np.random.default_rng(seed() * 7919 + len(req)).permutation(len(req)), 2)
             else:       # consecutive calls share the LAST double argument and differ in the earlier ones
                 key = req['d'][:, max(nd - 1, 0)]
                 idx = np.argsort(key, kind='stable')
